@@ -270,7 +270,9 @@ func (e *Env) Finish(out kernel.Outcome) {
 	e.Res.Ties = out.Ties
 	e.Res.SimTimeNS = int64(out.End)
 	e.Res.TraceDigest = fmt.Sprintf("%016x", out.TraceDigest)
-	e.Res.SchedDigest = fmt.Sprintf("%016x", out.SchedDigest)
+	if !(e.K.Free && e.Res.SchedDigest != "") {
+		e.Res.SchedDigest = fmt.Sprintf("%016x", out.SchedDigest)
+	}
 	e.Fault("sched-tie", out.Ties)
 	if out.Livelock {
 		e.Res.Inconclusive = "step budget exhausted (zero-time livelock, or a run too expensive to finish)\n" + out.HangDump
